@@ -268,7 +268,8 @@ def rand_tag(rng):
     return tpl % tuple(rng.choice(NUMS) for _ in range(n))
 
 
-BRANCHES = ["develop", "feature/x", "feature/login-1", "release/3", "release/4/fix", "hotfix/7", "topic", "dev", "bugfix/ISSUE-42", "wip"]
+BRANCHES = ["develop", "feature/x", "feature/login-1", "release/3", "release/4/fix", "hotfix/7", "topic", "dev", "bugfix/ISSUE-42", "wip",
+            "feature/ünï-日本", "UPPER/Case", "a.b", "rel#1", "x" * 70, "1.2.3-branch", "v9"]
 
 
 def build_random(path, rng, nops):
@@ -309,8 +310,12 @@ def build_random(path, rng, nops):
                     name = rng.choice(sorted(r.branches))      # a (non-version) tag that shares its name with a branch
                 if not r.tag(name, cid, annotated=rng.random() < 0.4):
                     continue
-            else:
+            elif k < 0.97:
                 r.detach(rng.choice(r.commits)["id"])
+            else:
+                # housekeeping that must not change any reported fact
+                r.git(*rng.choice([("pack-refs", "--all"), ("gc", "-q"), ("repack", "-q", "-a", "-d")]))
+                r.ops.append("housekeeping")
         except GitError as e:
             raise core.Inconclusive("generator: %s" % e)
         yield r
